@@ -102,11 +102,20 @@ func (s *Scraper) ParseResponse(do func(rows []parser.Row) error) error {
 		}
 	}()
 
-	return parser.ParseStream(s.reader, time.Now().UnixNano()/1e6,
+	err := parser.ParseStream(s.reader, time.Now().UnixNano()/1e6,
 		false,
 		do, func(str string) {
 			s.log.Print(str)
 		})
+	if err != nil {
+		return err
+	}
+	// the stream parser treats some read errors (connection reset by peer) as the end of
+	// the input: a body that broke off is a failed scrape, not a short successful one
+	if w, ok := s.reader.(*wrappedReader); ok && w.err != nil {
+		return errors.Wrap(w.err, "read body")
+	}
+	return nil
 }
 
 // StatisticsSeriesResult is the samples count in one scrape
